@@ -320,6 +320,11 @@ def gen_listop(w, r, pure=False):
         if x is None:
             return None
         op["args"] = [x]
+        if meth == "index" and r.random() < 0.5:
+            # index(value, start[, stop]) with bounds around both ends, 0 and negatives included
+            op["args"].append(r.randrange(-n - 1, n + 2))
+            if r.random() < 0.6:
+                op["args"].append(r.randrange(-n - 1, n + 2))
     elif meth in ("extend", "iadd") and len(irs) > 1 and r.random() < w.cfg.get("p_wrapper_arg", 0.2):
         op["args"] = [_lazy_view(w, r, {"from_ir": pick(r, [x for x in irs if x != I])})]
     elif meth in ("extend", "iadd"):
